@@ -242,6 +242,11 @@ def gen_scenario(seed, focus="C20"):
     truth0 = ch.choice("truth0", KINDS)
     files, states = initial_states(proj, ch, truth0, focus)
     ops = []
+    if ch.chance("hardlink", 0.08):
+        # one of the files has a second name (a hard link made by a backup or vendoring tool)
+        have = sorted(r for r, t in files.items() if t is not None)
+        if have:
+            ops.append({"op": "env_transform", "path": ch.choice("hardlink.file", have), "how": "hardlink"})
     n_ops = ch.int("nops", 2, 7)
     enabled = ch.subset("faults.enabled", FAULT_KINDS, 0.6, at_least=1)
     fault_rate = {"C20": 0.55, "C09": 0.25, "C10": 0.05, "C11": 0.1, "C14": 0.2}.get(focus, 0.2)
